@@ -147,6 +147,7 @@ type Machine struct {
 	traceChans   map[*Chan]bool   // shared objects in thread-trace mode: operations are recorded, not executed
 	traceMutex   map[*Value]bool
 	SyncTrace    []string
+	Emitted      []string
 	mutexNames   map[*Value]string
 	traceAllMutex bool
 	domPending   []domFact
